@@ -102,16 +102,34 @@ func judgeC08(rep *lib.Report, c *lib.Ctx, ln *printerLine, res *realResult, kas
 		return
 	}
 	// "not reformatted": the relation above compares two runs of the same code, so a decoration added to redactables and
-	// to their placeholders alike passes it.  Absolutely: no verb puts quotation marks around a redactable's content
-	// (Go-syntax printing of the containers around it names types and fields, the redactable itself stays as it is).
+	// to their placeholders alike passes it.  Absolutely: no verb wraps a redactable's content in quotation marks (Go-syntax
+	// printing of the containers around it names types and fields, the redactable itself stays as it is).  Only a
+	// content quoted on BOTH sides and delimited by container punctuation counts: a lone quotation mark next to it can
+	// belong to the rendering of a neighbouring operand.
 	for _, content := range contents {
-		if len(content) == 0 || content[0] == '"' || content[0] == '`' || content[len(content)-1] == '"' || content[len(content)-1] == '`' {
+		if len(content) == 0 {
 			continue
 		}
 		for _, q := range []string{"\"", "`"} {
-			if bytes.Contains(res.Out, append([]byte(q), content...)) || bytes.Contains(res.Out, append(append([]byte{}, content...), q...)) {
-				rep.Violate("compose:reformatted", fmt.Sprintf("%s: output %q puts a quotation mark next to the redactable %q", desc, res.Out, content), kase)
-				return
+			quoted := append(append([]byte(q), content...), q...)
+			for off := 0; ; {
+				i := bytes.Index(res.Out[off:], quoted)
+				if i < 0 {
+					break
+				}
+				i += off
+				off = i + 1
+				before, after := byte(' '), byte(' ')
+				if i > 0 {
+					before = res.Out[i-1]
+				}
+				if j := i + len(quoted); j < len(res.Out) {
+					after = res.Out[j]
+				}
+				if bytes.IndexByte([]byte("{[:( "), before) >= 0 && bytes.IndexByte([]byte("}],) :"), after) >= 0 {
+					rep.Violate("compose:reformatted", fmt.Sprintf("%s: output %q wraps the redactable %q in quotation marks", desc, res.Out, content), kase)
+					return
+				}
 			}
 		}
 	}
